@@ -158,7 +158,7 @@ def build(env, case):
     if case["noise"] in ("scalar", "diagonal"):
         kw["obs_models"] = "gaussian-" + case["noise"]
     if name == "mixture_logistic":
-        kw["n_clusters"] = 2
+        kw["n_clusters"] = case.get("n_clusters", 2)
     model = env.model_factory(name, **kw)
     return df, dataset, model
 
@@ -747,9 +747,16 @@ def gen_cases(chk):
     for rep in range(reps):
         for model, noise in combos:
             n_iter = rng.randint(3, 6) if chk.tier == "quick" else rng.randint(3, 10)
-            cases.append(dict(model=model, noise=noise, n_ind=rng.randint(3, 8), n_ft=rng.choice([2, 2, 3]),
-                              src=1, miss=rng.choice([0.0, 0.15, 0.3, 0.45]), data_seed=rng.randrange(10 ** 6),
-                              n_iter=n_iter, n_burn=rng.randint(0, n_iter), seed=rng.randrange(1000)))
+            n_ft = rng.choice([2, 2, 3])
+            case = dict(model=model, noise=noise, n_ind=rng.randint(3, 8), n_ft=n_ft,
+                        src=1, miss=rng.choice([0.0, 0.15, 0.3, 0.45]), data_seed=rng.randrange(10 ** 6),
+                        n_iter=n_iter, n_burn=rng.randint(0, n_iter), seed=rng.randrange(1000))
+            if model == "mixture_logistic":
+                # every shape coincidence between (sources, clusters): 1x2, 2x2 (square), 2x3, 1x3
+                case["n_ft"] = 3
+                case["src"], case["n_clusters"] = rng.choice([(1, 2), (2, 2), (2, 2), (2, 3), (1, 3)])
+                case["n_ind"] = rng.randint(5, 9)
+            cases.append(case)
     return cases
 
 
